@@ -85,8 +85,17 @@ def dpa(host, realm="r1", hbh=1, e2e=1, rc=2001):
     return m
 
 
-def ccr(host, realm="r1", dest_realm="r1", hbh=1, e2e=1, app=4, T=False, session="s;1", pad=0, drop=()):
-    """Credit-Control-Request with all required AVPs (minus those named in `drop`)."""
+def sid_of(hbh, e2e):
+    """Session-Id of the environment's request with these identifiers (Mon_C20!SidOf is the same function)"""
+    return "s;%d;%d" % (hbh, e2e)
+
+
+def ccr(host, realm="r1", dest_realm="r1", hbh=1, e2e=1, app=4, T=False, session=None, pad=0, drop=()):
+    """Credit-Control-Request with all required AVPs (minus those named in `drop`), a Session-Id and one Proxy-Info
+    derived from its identifiers."""
+    from diameter.message.commands.credit_control import ProxyInfo
+    if session is None:
+        session = sid_of(hbh, e2e)
     m = CreditControlRequest()
     m.header.application_id = app
     m.header.hop_by_hop_identifier = hbh
@@ -101,6 +110,7 @@ def ccr(host, realm="r1", dest_realm="r1", hbh=1, e2e=1, app=4, T=False, session
     m.service_context_id = "ctx"
     m.cc_request_type = 1
     m.cc_request_number = 0
+    m.proxy_info = [ProxyInfo(proxy_host=b"px%d" % hbh, proxy_state=b"st%d" % e2e)]
     for d in drop:
         setattr(m, d, None)
     if pad:
@@ -181,6 +191,41 @@ def find1(m: Message, code, vendor=0):
     return None
 
 
+def xdigest(m: Message) -> dict:
+    """What a message carries beyond the header and result: identity, addresses, vendor, product, application ids,
+    Origin-State-Id, Session-Id, Proxy-Info, Failed-AVP members, Error-Message (plain decoding)."""
+    def all_(code, vendor=0):
+        return [a for a in m.avps if a.code == code and a.vendor_id == vendor]
+
+    def val(a, default):
+        try:
+            v = a.value
+        except Exception:
+            return default
+        if isinstance(v, bytes):
+            v = v.decode("utf8", "replace")
+        return v
+
+    def one(code, default):
+        a = all_(code)
+        return val(a[0], default) if a else default
+    pis = []
+    for a in all_(K.AVP_PROXY_INFO):
+        kids = val(a, [])
+        h = [val(k, "") for k in kids if k.code == K.AVP_PROXY_HOST]
+        st = [val(k, "") for k in kids if k.code == K.AVP_PROXY_STATE]
+        pis.append("%s/%s" % (h[0] if h else "", st[0] if st else ""))
+    fa = []
+    for a in all_(K.AVP_FAILED_AVP):
+        for k in val(a, []):
+            fa.append([k.code, k.vendor_id])
+    return {"orlm": one(K.AVP_ORIGIN_REALM, ""), "ips": [val(a, (0, ""))[1] for a in all_(K.AVP_HOST_IP_ADDRESS)],
+            "vid": one(K.AVP_VENDOR_ID, -1), "prod": one(K.AVP_PRODUCT_NAME, ""),
+            "auth": sorted(val(a, -1) for a in all_(K.AVP_AUTH_APPLICATION_ID)), "acct": sorted(val(a, -1) for a in all_(K.AVP_ACCT_APPLICATION_ID)),
+            "osi": one(K.AVP_ORIGIN_STATE_ID, -1), "sid": one(K.AVP_SESSION_ID, ""), "pi": pis,
+            "nfa": len(all_(K.AVP_FAILED_AVP)), "fa": fa, "noh": len(all_(K.AVP_ORIGIN_HOST)), "nrc": len(all_(K.AVP_RESULT_CODE))}
+
+
 def absmsg(frame: bytes) -> dict:
     """Abstract a wire frame for traces (plain decoding: independent of the typed classes)."""
     m = Message.from_bytes(frame, plain_msg=True)
@@ -203,4 +248,5 @@ def absmsg(frame: bytes) -> dict:
         "oh": val(K.AVP_ORIGIN_HOST, ""), "rlm": val(K.AVP_DESTINATION_REALM, ""),
         "rc": val(K.AVP_RESULT_CODE, 0),
         "dc": val(K.AVP_DISCONNECT_CAUSE, -1),
+        "x": xdigest(m),
     }
